@@ -186,7 +186,8 @@ ASMJIT_FAVOR_SIZE Error init_func_detail(FuncDetail& func, const FuncSignature& 
           else {
             uint32_t size = Support::max<uint32_t>(TypeUtils::size_of(type_id), min_stack_arg_size);
             if (size >= 8) {
-              stack_offset = Support::align_up(stack_offset, 8);
+              // Natural alignment - 16-byte vectors are aligned to 16 bytes.
+              stack_offset = Support::align_up(stack_offset, Support::min<uint32_t>(size, 16u));
             }
             arg.assign_stack_offset(int32_t(stack_offset));
             stack_offset += size;
